@@ -26,7 +26,8 @@ PROP = 'C18'
 SRC = os.path.join(VERIF, 'diff', 'C18.cpp')
 DRV = os.path.join(LEAN, '.lake', 'build', 'bin', 'drv_c18')
 MODS = ['GlmVerif.Props.C18', 'GlmVerif.Props.C18.Pow2U', 'GlmVerif.Props.C18.Pow2S', 'GlmVerif.Props.C18.Multiple',
-        'GlmVerif.Props.C18.Bits', 'GlmVerif.Props.C18.Rotate', 'GlmVerif.Props.C18.Interleave', 'GlmVerif.Props.C18.Gtx']
+        'GlmVerif.Props.C18.Bits', 'GlmVerif.Props.C18.Rotate', 'GlmVerif.Props.C18.Interleave', 'GlmVerif.Props.C18.Gtx',
+        'GlmVerif.Props.C18.Sqrt']
 HDIR = os.path.join(VERIF, 'h', PROP)
 ANCHORED = ['glm/ext/scalar_integer.inl', 'glm/ext/vector_integer.inl', 'glm/gtc/round.inl', 'glm/gtc/bitfield.inl',
             'glm/gtc/integer.inl', 'glm/gtx/integer.inl', 'glm/gtx/bit.inl']
@@ -295,11 +296,11 @@ def run(tier, seed):
              '64-bit hash of a sweep block) and checked against the executable specification.  Sweep blocks: every value of int8/uint8/int16/uint16 '
              'for the unary functions (signed floor/prev/roundPowerOfTwo, powerOfTwoBelow/Above/Nearest and mask: the non-negative half, negative '
              'arguments are outside the documented domain); x every multiple 1..127/255 for the 8-bit types; for the 16-bit types the 2^16 x 2^16 '
-             'product is SUBSAMPLED on the multiple axis, deterministically (1..16 [thorough: 1..256], all 2^k, 2^k±1 for k in {5,8,11,14,15} [all k], 100,255,256,257,1000,10000, max, '
-             'max-1, max/2, max/2+1, max/3) plus 6 [256] seeded ones, all 2^16 sources each; every findNSB count 1..w+1; every rotate count 0..w; every '
+             'product is SUBSAMPLED on the multiple axis, deterministically (1..16 [thorough: 1..128], all 2^k, 2^k±1 for k in {5,8,11,14,15} [all k], 100,255,256,257,1000,10000, max, '
+             'max-1, max/2, max/2+1, max/3) plus 6 [96] seeded ones, all 2^16 sources each; every findNSB count 1..w+1; every rotate count 0..w; every '
              'bit range (first,count) for 8 bit and a deterministic subset [thorough: all] for 16 bit; all 2^16 uint8 pairs and all 2^24 uint8 triples '
-             'of bitfieldInterleave, all 2^16 bitfieldDeinterleave(uint16); 96 [thorough: all 65536] high halves x 2^16 for interleave(uint8 x4), '
-             'interleave(uint16 x2) and deinterleave(uint32), i.e. all 2^32 inputs in thorough; nlz and sqrt on 2^16-blocks.  Single evaluations: '
+             'of bitfieldInterleave, all 2^16 bitfieldDeinterleave(uint16); 96 [thorough: all 65536, i.e. all 2^32 pairs] high halves x 2^16 for interleave(uint16 x2); 96 [8192] high halves x 2^16 for '
+             'interleave(uint8 x4) and deinterleave(uint32); nlz and sqrt on 2^16-blocks.  Single evaluations: '
              'boundary lattice (0..20, ±2^k, 2^k±1, 1.5*2^k, patterns) and xoshiro256** (VERIF_SEED) values of random bit length for the 32/64-bit '
              'types, the vector / (vec,scalar) / signed overloads of every function, pow/mod/factorial, float ceil/floor/roundMultiple on an exact '
              'dyadic lattice and random magnitudes.  distinct_nontrivial = inputs whose (first) result is neither zero nor the first argument: block '
@@ -309,7 +310,7 @@ def run(tier, seed):
         known_findings_hit=[dict(function=f, input_class=c, evaluations=n) for (f, c), (k, n) in sorted(known_hits.items())],
         samples=samples, notes=notes, exhaustive=False,
         exhaustive_parts=dict(types_8_16_bit_unary=True, types_8_bit_x_all_multiples=True, types_8_16_bit_x_all_shift_counts=True,
-                              interleave_2x8_3x8=True, deinterleave_16=True, interleave_2x16_4x8_deinterleave_32_all_2_32=(tier == 'thorough'),
+                              interleave_2x8_3x8=True, deinterleave_16=True, interleave_uint16_pairs_all_2_32=(tier == 'thorough'),
                               types_16_bit_x_all_multiples=False))
     write_evidence(PROP, tier, seed, coverage,
                    ['the documented domain: Multiple > 0, non-zero (signed: positive) argument of the power-of-two family, exact result representable, '
